@@ -167,6 +167,31 @@ async fn re_async_result(_w: &mut ZA, what: String) -> Result<(), ZooErr> {
     if what == "err" { Err(ZooErr("async planned".into())) } else { Ok(()) }
 }
 
+// fallible steps whose return type is spelled through an alias (the macro sees no `Result`)
+type Fallible<T = ()> = Result<T, String>;
+type ZooOutcome = std::result::Result<(), ZooErr>;
+mod alias {
+    pub type Outcome = Result<(), String>;
+}
+
+#[when(regex = r"^alias res (ok|err)$")]
+fn re_alias_result(_w: &mut ZA, what: String) -> Fallible {
+    rec("re_alias_result", format!("{what:?}"));
+    if what == "err" { Err("planned failure behind an alias".into()) } else { Ok(()) }
+}
+
+#[given(expr = "alias async {word}")]
+async fn ex_alias_async(_w: &mut ZA, what: String) -> alias::Outcome {
+    rec("ex_alias_async", format!("{what:?}"));
+    if what == "err" { Err("async failure behind an alias".into()) } else { Ok(()) }
+}
+
+#[then("alias literal err")]
+fn lit_alias_result(_w: &mut ZA) -> ZooOutcome {
+    rec("lit_alias_result", String::new());
+    Err(ZooErr("behind an alias".into()))
+}
+
 #[then(regex = r"^step arg (\d+)$")]
 fn re_with_step(_w: &mut ZA, n: u8, #[step] st: &Step) {
     rec("re_with_step", format!("{n:?},{:?}", st.value));
@@ -350,6 +375,9 @@ fn defs() -> Vec<Def> {
         Def { world: 'A', kw: Then, id: "re_optional", how: Re(r"^opt (\d+)( and (\d+))?$"), expect: |g, _| g[0].parse::<u32>().map(|a| format!("{a:?},{:?},{:?}", g[1], g[2])).map_err(|_| "can not be parsed".into()) },
         Def { world: 'A', kw: Then, id: "re_result", how: Re(r"^res (ok|err)$"), expect: |g, _| if g[0] == "err" { Err("planned failure".into()) } else { Ok(format!("{:?}", g[0])) } },
         Def { world: 'A', kw: Then, id: "re_async_result", how: Re(r"^async res (ok|err)$"), expect: |g, _| if g[0] == "err" { Err("zoo error: async planned".into()) } else { Ok(format!("{:?}", g[0])) } },
+        Def { world: 'A', kw: When, id: "re_alias_result", how: Re(r"^alias res (ok|err)$"), expect: |g, _| if g[0] == "err" { Err("planned failure behind an alias".into()) } else { Ok(format!("{:?}", g[0])) } },
+        Def { world: 'A', kw: Given, id: "ex_alias_async", how: Expr("alias async {word}", r"^alias async ([^\s]+)$"), expect: |g, _| if g[0] == "err" { Err("async failure behind an alias".into()) } else { Ok(format!("{:?}", g[0])) } },
+        Def { world: 'A', kw: Then, id: "lit_alias_result", how: Literal("alias literal err"), expect: |_, _| Err("zoo error: behind an alias".into()) },
         Def { world: 'A', kw: Then, id: "re_with_step", how: Re(r"^step arg (\d+)$"), expect: |g, t| g[0].parse::<u8>().map(|n| format!("{n:?},{t:?}")).map_err(|_| "can not be parsed".into()) },
         Def { world: 'A', kw: When, id: "re_named_step_slice", how: Re(r"^named step (\w+) (\w+)$"), expect: |g, t| Ok(format!("{t:?},{g:?}")) },
         Def { world: 'A', kw: Given, id: "re_parse", how: Re(r"^num (\S+)$"), expect: |g, _| g[0].parse::<u32>().map(|n| format!("{n:?}")).map_err(|_| "can not be parsed".into()) },
@@ -407,6 +435,7 @@ const CORPUS: &[&str] = &[
     // regex
     "7 apples", "07 apples", "7 apples!", "x 7 apples", "99999999999 apples", "bob owes ann 5", "so bob owes ann 5 bucks", "bob owes ann", "bob owes ann -5",
     "slice a b c", "slice a b", "slice a b c d", "ints 1,2", "ints 1,300", "ints 1", "opt 1", "opt 1 and 2", "opt 1 and", "opt",
+    "alias res ok", "alias res err", "alias async ok", "alias async err", "alias async", "alias literal err",
     "res ok", "res err", "res maybe", "async res ok", "async res err", "step arg 5", "step arg 500", "named step x y", "named step x",
     "num 12", "num abc", "num -1", "num 4294967296", "éüü tail text", "éü ", "eüü x", "é x",
     // expressions
